@@ -646,4 +646,281 @@ theorem tlsReopen_fst (t : Tls) :
   cases h : t.c.sock <;> simp
 
 
+/-! ### TLS client: bounded liveness for arbitrary latencies -/
+
+/-- a TLS handshake that completes within `b` calls: no failure before, success at the `b`-th -/
+def Shaking (b : Nat) (hsOf : Nat → Shake) : Prop :=
+  0 < b ∧ (∀ m, m + 1 < b → hsOf m ≠ .fail) ∧ hsOf (b - 1) = .ok
+
+/-- the reconnect timer would make `serviceConnect` reopen now -/
+def Fires (c : Client) : Prop := c.reconnectable = true ∧ 0 < c.timeout ∧ c.timer.stop ≤ c.now
+
+theorem tls_step_accept_wait (t : Tls) (ans : Nat → Nat) (hs : Nat → Shake) (id : Nat)
+    (hsock : t.c.sock = some id) (hx : t.c.cutoff = false) (hc : t.connected = false) (ha : t.c.accepted = false)
+    (hn : ¬ isOk (ans t.c.attempts)) (hr : notRefused (ans t.c.attempts)) (ht : ¬ Fires t.c) :
+    (tlsServiceConnect t ans hs).1 = { t with c := { t.c with attempts := t.c.attempts + 1 } } := by
+  have h1 : ¬ (ans t.c.attempts = 0 ∨ ans t.c.attempts = EISCONN) := hn
+  have h2 : ¬ (ans t.c.attempts = EINVAL ∨ ans t.c.attempts = ECONNREFUSED) := by
+    intro h; rcases h with h | h
+    · exact hr.1 h
+    · exact hr.2 h
+  unfold Fires at ht
+  simp [tlsServiceConnect, tlsCutoffPart, tlsConnect, accept, hsock, hx, hc, ha, h1, h2, timerFired, Timer.expired, ht]
+
+theorem tls_step_accept_ok (t : Tls) (ans : Nat → Nat) (hs : Nat → Shake) (id : Nat)
+    (hsock : t.c.sock = some id) (hx : t.c.cutoff = false) (hc : t.connected = false) (ha : t.c.accepted = false)
+    (hok : isOk (ans t.c.attempts)) (hnf : hs t.shakes ≠ .fail)
+    (ht : hs t.shakes = .ok ∨ ¬ Fires t.c) :
+    (tlsServiceConnect t ans hs).1 =
+      ⟨{ t.c with attempts := t.c.attempts + 1, ca := some id, accepted := true, cutoff := false },
+       decide (hs t.shakes = .ok), t.shakes + 1⟩ := by
+  have h1 : ans t.c.attempts = 0 ∨ ans t.c.attempts = EISCONN := hok
+  cases hh : hs t.shakes with
+  | ok => simp [tlsServiceConnect, tlsCutoffPart, tlsConnect, accept, hsock, hx, hc, ha, h1, hh]
+  | fail => exact absurd hh hnf
+  | want =>
+    rcases ht with ht | ht
+    · rw [hh] at ht; cases ht
+    · unfold Fires at ht
+      simp [tlsServiceConnect, tlsCutoffPart, tlsConnect, accept, hsock, hx, hc, ha, h1, hh, timerFired, Timer.expired, ht]
+
+theorem tls_step_shake (t : Tls) (ans : Nat → Nat) (hs : Nat → Shake) (id : Nat)
+    (hsock : t.c.sock = some id) (hx : t.c.cutoff = false) (hc : t.connected = false) (ha : t.c.accepted = true)
+    (hnf : hs t.shakes ≠ .fail) (ht : hs t.shakes = .ok ∨ ¬ Fires t.c) :
+    (tlsServiceConnect t ans hs).1 = ⟨t.c, decide (hs t.shakes = .ok), t.shakes + 1⟩ := by
+  cases hh : hs t.shakes with
+  | ok => simp [tlsServiceConnect, tlsCutoffPart, tlsConnect, hsock, hx, hc, ha, hh]
+  | fail => exact absurd hh hnf
+  | want =>
+    rcases ht with ht | ht
+    · rw [hh] at ht; cases ht
+    · unfold Fires at ht
+      simp [tlsServiceConnect, tlsCutoffPart, tlsConnect, hsock, hx, hc, ha, hh, timerFired, Timer.expired, ht]
+
+theorem tls_service_live (t : Tls) (ans : Nat → Nat) (hs : Nat → Shake) (hc : t.connected = true) (hx : t.c.cutoff = false) :
+    (tlsServiceConnect t ans hs).1 = t := by
+  simp [tlsServiceConnect, tlsCutoffPart, hc, hx]
+
+theorem trunListening_bare_live (ansOf : Nat → Nat) (hsOf : Nat → Shake) (dts : List Int) : ∀ (t : Tls),
+    t.connected = true → t.c.cutoff = false →
+    (trunListening ansOf hsOf .bare t dts).connected = true ∧ (trunListening ansOf hsOf .bare t dts).c.cutoff = false ∧
+    (trunListening ansOf hsOf .bare t dts).c.sock = t.c.sock ∧ (trunListening ansOf hsOf .bare t dts).c.ca = t.c.ca ∧
+    (trunListening ansOf hsOf .bare t dts).c.accepted = t.c.accepted := by
+  induction dts with
+  | nil => intro t hc hx; exact ⟨hc, hx, rfl, rfl, rfl⟩
+  | cons d rest ih =>
+    intro t hc hx
+    unfold trunListening
+    simp only [Kind.tlsService]
+    rw [tls_service_live { t with c := { t.c with now := t.c.now + d } } ansOf hsOf hc hx]
+    exact ih _ hc hx
+
+/-- how many more service calls a TLS client in the middle of (re)connecting needs at most -/
+def tlsNeed (a b : Nat) (t : Tls) : Nat :=
+  if t.c.accepted then b - t.shakes else (a - t.c.attempts) + (b - 1)
+
+/-- **bounded liveness of the TLS client, core**: socket `id` open, not connected, not cut off, either
+still connecting (`n < a` attempts made, no handshake yet) or accepted with `m < b` handshake calls made;
+the server answers the `a`-th `connect_ex` and completes the handshake at its `b`-th call; the schedule is
+at least as long as needed and paced.  Then the client ends connected on that socket. -/
+theorem tls_reconnect_core (a b : Nat) (ansOf : Nat → Nat) (hsOf : Nat → Shake) (hL : Listening a ansOf)
+    (hS : Shaking b hsOf) (id : Nat) :
+    ∀ (dts : List Int) (t : Tls), t.c.sock = some id → t.connected = false → t.c.cutoff = false →
+    (t.c.accepted = false → t.shakes = 0 ∧ t.c.attempts < a) →
+    (t.c.accepted = true → t.shakes < b ∧ t.c.ca = some id) →
+    tlsNeed a b t ≤ dts.length → 0 < dts.length →
+    (t.c.reconnectable = true → 0 < t.c.timeout → Paced (t.c.timer.stop - t.c.now) dts) →
+    (trunListening ansOf hsOf .bare t dts).connected = true ∧ (trunListening ansOf hsOf .bare t dts).c.cutoff = false ∧
+    (trunListening ansOf hsOf .bare t dts).c.accepted = true ∧
+    (trunListening ansOf hsOf .bare t dts).c.sock = some id ∧ (trunListening ansOf hsOf .bare t dts).c.ca = some id := by
+  obtain ⟨ha0, hnr, haok⟩ := hL
+  obtain ⟨hb0, hnf, hbok⟩ := hS
+  intro dts
+  induction dts with
+  | nil => intro t _ _ _ _ _ _ h; simp at h
+  | cons d rest ih =>
+    intro t hsock hc hx hph1 hph2 hneed _ hp
+    let t0 : Tls := { t with c := { t.c with now := t.c.now + d } }
+    have hsock0 : t0.c.sock = some id := hsock
+    have hc0 : t0.connected = false := hc
+    have hx0 : t0.c.cutoff = false := hx
+    -- when another round follows, the timer does not fire in this one
+    have hquiet : rest ≠ [] → ¬ Fires t0.c := by
+      intro hne ⟨r, p, le⟩
+      cases rest with
+      | nil => exact hne rfl
+      | cons d' rest' =>
+        have := (hp r p).1
+        have e1 : t0.c.timer.stop = t.c.timer.stop := rfl
+        have e2 : t0.c.now = t.c.now + d := rfl
+        omega
+    have hpaced' : ∀ (t1 : Tls), t1.c.timer = t.c.timer → t1.c.now = t.c.now + d → t1.c.reconnectable = t.c.reconnectable →
+        t1.c.timeout = t.c.timeout → t1.c.reconnectable = true → 0 < t1.c.timeout →
+        Paced (t1.c.timer.stop - t1.c.now) rest := by
+      intro t1 e1 e2 e3 e4 r p
+      cases rest with
+      | nil => trivial
+      | cons d' rest' =>
+        have := (hp (e3 ▸ r) (e4 ▸ p)).2
+        rw [e1, e2]
+        have e : t.c.timer.stop - (t.c.now + d) = t.c.timer.stop - t.c.now - d := by omega
+        rw [e]; exact this
+    unfold trunListening
+    simp only [Kind.tlsService]
+    rw [show ({ t with c := { t.c with now := t.c.now + d } } : Tls) = t0 from rfl]
+    by_cases hacc : t.c.accepted = true
+    · -- handshake phase
+      have hacc0 : t0.c.accepted = true := hacc
+      obtain ⟨hm, hca⟩ := hph2 hacc
+      have hm0 : t0.shakes < b := hm
+      have hnf0 : hsOf t0.shakes ≠ .fail := by
+        by_cases hl : t0.shakes + 1 < b
+        · exact hnf _ hl
+        · have : t0.shakes = b - 1 := by omega
+          rw [this, hbok]; intro h; cases h
+      have hneed' : b - t.shakes ≤ rest.length + 1 := by simpa [tlsNeed, hacc] using hneed
+      have hstep := tls_step_shake t0 ansOf hsOf id hsock0 hx0 hc0 hacc0 hnf0
+        (by
+          by_cases hok : hsOf t0.shakes = .ok
+          · exact Or.inl hok
+          · right
+            apply hquiet
+            intro hr
+            have : t0.shakes = b - 1 := by
+              have : t.shakes = t0.shakes := rfl
+              rw [hr] at hneed'; simp at hneed'; omega
+            exact hok (this ▸ hbok))
+      rw [hstep]
+      by_cases hok : hsOf t0.shakes = .ok
+      · simp only [hok, decide_true]
+        obtain ⟨l1, l2, l3, l4, l5⟩ := trunListening_bare_live ansOf hsOf rest ⟨t0.c, true, t0.shakes + 1⟩ rfl hx0
+        exact ⟨l1, l2, by rw [l5]; exact hacc0, by rw [l3]; exact hsock0, by rw [l4]; exact hca⟩
+      · simp only [hok, decide_false]
+        have hm1 : t0.shakes + 1 < b := by
+          by_cases hl : t0.shakes + 1 < b
+          · exact hl
+          · have : t0.shakes = b - 1 := by omega
+            exact absurd (this ▸ hbok) hok
+        have hlen : 0 < rest.length := by
+          have : t.shakes = t0.shakes := rfl
+          omega
+        apply ih ⟨t0.c, false, t0.shakes + 1⟩ hsock0 rfl hx0
+        · intro h; rw [hacc0] at h; cases h
+        · intro _; exact ⟨hm1, hca⟩
+        · have : t.shakes = t0.shakes := rfl
+          simp only [tlsNeed, hacc0, if_true]; omega
+        · exact hlen
+        · exact hpaced' ⟨t0.c, false, t0.shakes + 1⟩ rfl rfl rfl rfl
+    · -- connecting phase
+      have hacc' : t.c.accepted = false := by simpa using hacc
+      have hacc0 : t0.c.accepted = false := hacc'
+      obtain ⟨hsh, hn⟩ := hph1 hacc'
+      have hsh0 : t0.shakes = 0 := hsh
+      have hn0 : t0.c.attempts < a := hn
+      have hneed' : (a - t.c.attempts) + (b - 1) ≤ rest.length + 1 := by simpa [tlsNeed, hacc'] using hneed
+      by_cases hok : isOk (ansOf t0.c.attempts)
+      · -- accepted in this call, first handshake call in the same call
+        have hnf0 : hsOf t0.shakes ≠ .fail := by
+          rw [hsh0]
+          by_cases hl : 0 + 1 < b
+          · exact hnf 0 hl
+          · have : b - 1 = 0 := by omega
+            rw [← this, hbok]; intro h; cases h
+        have hstep := tls_step_accept_ok t0 ansOf hsOf id hsock0 hx0 hc0 hacc0 hok hnf0
+          (by
+            by_cases hk : hsOf t0.shakes = .ok
+            · exact Or.inl hk
+            · right
+              apply hquiet
+              intro hr
+              have hb1 : b - 1 = 0 := by
+                have : t.c.attempts = t0.c.attempts := rfl
+                rw [hr] at hneed'; simp at hneed'; omega
+              exact hk (by rw [hsh0, ← hb1]; exact hbok))
+        rw [hstep]
+        by_cases hk : hsOf t0.shakes = .ok
+        · simp only [hk, decide_true]
+          obtain ⟨l1, l2, l3, l4, l5⟩ := trunListening_bare_live ansOf hsOf rest
+            ⟨{ t0.c with attempts := t0.c.attempts + 1, ca := some id, accepted := true, cutoff := false }, true,
+              t0.shakes + 1⟩ rfl rfl
+          exact ⟨l1, l2, by rw [l5], by rw [l3]; exact hsock0, by rw [l4]⟩
+        · simp only [hk, decide_false]
+          have hb2 : 0 + 1 < b := by
+            by_cases hl : 0 + 1 < b
+            · exact hl
+            · have : b - 1 = 0 := by omega
+              exact absurd (by rw [hsh0, ← this]; exact hbok) hk
+          have hlen : 0 < rest.length := by
+            have : t.c.attempts = t0.c.attempts := rfl
+            omega
+          apply ih ⟨{ t0.c with attempts := t0.c.attempts + 1, ca := some id, accepted := true, cutoff := false },
+              false, t0.shakes + 1⟩ hsock0 rfl rfl
+          · intro h; cases h
+          · intro _; exact ⟨by rw [hsh0]; exact hb2, rfl⟩
+          · have : t.c.attempts = t0.c.attempts := rfl
+            simp only [tlsNeed, if_true]; rw [hsh0]; omega
+          · exact hlen
+          · exact hpaced' _ rfl rfl rfl rfl
+      · -- still waiting for the connection
+        have hn1 : t0.c.attempts + 1 < a := by
+          by_cases hl : t0.c.attempts + 1 < a
+          · exact hl
+          · have : t0.c.attempts = a - 1 := by omega
+            exact absurd (this ▸ haok) hok
+        have hlen : 0 < rest.length := by
+          have : t.c.attempts = t0.c.attempts := rfl
+          omega
+        have hstep := tls_step_accept_wait t0 ansOf hsOf id hsock0 hx0 hc0 hacc0 hok (hnr _ hn1)
+          (hquiet (by intro h; rw [h] at hlen; simp at hlen))
+        rw [hstep]
+        apply ih { t0 with c := { t0.c with attempts := t0.c.attempts + 1 } } hsock0 hc0 hx0
+        · intro _; exact ⟨hsh0, hn1⟩
+        · intro h; rw [show ({ t0 with c := { t0.c with attempts := t0.c.attempts + 1 } } : Tls).c.accepted = false from hacc0] at h; cases h
+        · have : t.c.attempts = t0.c.attempts := rfl
+          simp only [tlsNeed, hacc0, Bool.false_eq_true, if_false]; omega
+        · exact hlen
+        · exact hpaced' _ rfl rfl rfl rfl
+
+/-- the state a timer-driven reopen leaves a TLS client in -/
+def TlsJustReopened (t : Tls) (id : Nat) : Prop :=
+  JustReopened t.c id ∧ t.connected = false ∧ t.shakes = 0
+
+theorem tlsReopenRestart_just (t : Tls) (d : Option Int) :
+    TlsJustReopened (tlsReopenRestart t d).1 t.c.fresh ∧ (tlsReopenRestart t d).1.c.now = t.c.now ∧
+    (tlsReopenRestart t d).1.c.reconnectable = t.c.reconnectable ∧ (tlsReopenRestart t d).1.c.timeout = t.c.timeout ∧
+    (tlsReopenRestart t d).1.c.timer.duration = (match d with | some x => iabs x | none => t.c.timer.duration) := by
+  unfold tlsReopenRestart
+  have := tlsReopen_fst t
+  generalize tlsReopen t = r at this
+  obtain ⟨t1, e1⟩ := r
+  simp only at this
+  subst this
+  cases d <;> simp [TlsJustReopened, JustReopened, Timer.restart]
+
+theorem tls_cutoff_split (t : Tls) (ans : Nat → Nat) (hs : Nat → Shake)
+    (hx : t.c.cutoff = true) (hr : t.c.reconnectable = true) (hf : timerFired t.c = true) :
+    (tlsServiceConnect t ans hs).1 = (tlsServiceConnect (tlsReopenRestart t none).1 ans hs).1 := by
+  have hcp : tlsCutoffPart t none = tlsReopenRestart t none := by
+    unfold tlsCutoffPart
+    rw [if_pos (by rw [hx, hr, hf]; rfl)]
+  have hj := (tlsReopenRestart_just t none).1
+  have hcp2 : tlsCutoffPart (tlsReopenRestart t none).1 none = ((tlsReopenRestart t none).1, []) := by
+    unfold tlsCutoffPart
+    rw [hj.1.2.2.2.1]; rfl
+  conv => lhs; unfold tlsServiceConnect
+  conv => rhs; unfold tlsServiceConnect
+  rw [hcp, hcp2]
+  generalize tlsReopenRestart t none = r
+  obtain ⟨t1, e1⟩ := r
+  simp only
+  split
+  · generalize tlsConnect t1 ans hs = r2
+    obtain ⟨t2, e2, raised⟩ := r2
+    simp only
+    split
+    · rfl
+    · split <;> rfl
+  · rfl
+
+
 end Ioflo.Reconnect
